@@ -70,7 +70,8 @@ struct Runner {
 			delete x.tw; x.tw = t ? n : nullptr;          // the C function frees the old table first and leaves NULL on failure
 			log("read", h, r, t, same_table(ctab(h), x.tw), "file " + std::to_string(file));
 		} else if (f == "read_mem") {
-			int file = (int)op["file"].integer(); if (!x.c.data || !g_bytes.count(file)) return;
+			int file = (int)op["file"].integer(); if (!g_bytes.count(file)) return;
+			if (!x.c.data) { delete x.tw; x.tw = new Table(); }      // a null handle: the C function creates the table itself
 			std::vector<char> b1 = g_bytes[file], b2 = g_bytes[file]; splinetable_buffer buf; buf.data = b1.data(); buf.size = b1.size();
 			int r = readsplinefitstable_mem(&buf, &x.c); bool t = ok([&]() { x.tw->read_fits_mem(b2.data(), b2.size()); });
 			log("read_mem", h, r, t, same_table(ctab(h), x.tw), "file " + std::to_string(file));
